@@ -183,14 +183,15 @@ example : patCompare [42, 97, 92, 42] [120, 97, 92, 42] = true := by decide
 /-! ## Binding and unbinding -/
 
 /-
-  Full statement (false of the unchanged code, see the two counterexamples):
+  Full statement (false of the unchanged code, see the counterexample):
     ∀ w, valid w = ok → w.length = 11 → unbindFS (bindFS w) = some (norm w)
 -/
 
 /-- Round trip: a valid name with eleven attributes binds to a formatted string
     that unbinds to the same name — up to what the string cannot carry (`norm`:
-    unset reads back as ANY) — provided no set value is the empty string and
-    none contains a quoted underscore. -/
+    unset reads back as ANY) — provided no set value contains a quoted
+    underscore.  (A set value with the empty string, which used to bind to an
+    empty component and read back as unset, is no longer valid: /repo f1b06d69.) -/
 theorem fs_roundtrip_partial (w : WFN) (hv : valid w = .ok) (hl : w.length = 11)
     (hb : ∀ a ∈ w, bindable a) : unbindFS (bindFS w) = some (norm w) :=
   unbindFS_bindFS w hv hl hb
@@ -239,12 +240,17 @@ theorem fs_roundtrip_underscore_counterexample :
         some (nameWithVendor ⟨.set, [97, 95, 98]⟩) := by
   decide
 
-/-- A set value with the empty string is valid, binds to an empty component
-    and reads back as an unset attribute. -/
-theorem fs_roundtrip_empty_counterexample :
-    valid (nameWithVendor ⟨.set, []⟩) = .ok ∧
+/-- A set value with the empty string is not valid (/repo f1b06d69; it would
+    bind to an empty component, which reads back as an unset attribute), so
+    `MarshalText` refuses the name. -/
+theorem empty_set_value_invalid :
+    valid (nameWithVendor ⟨.set, []⟩) = .err ∧ marshalText (nameWithVendor ⟨.set, []⟩) = none ∧
       unbindFS (bindFS (nameWithVendor ⟨.set, []⟩)) = some (nameWithVendor ⟨.unset, []⟩) := by
   decide
+
+/-- Every set value of a valid name is a non-empty string. -/
+theorem valid_set_values_nonempty (w : WFN) (hv : valid w = .ok) : ∀ a ∈ w, a.kind = .set → a.v ≠ [] :=
+  valid_set_ne_nil w hv
 
 /-! ## What the unbinders accept -/
 
